@@ -132,6 +132,10 @@ def cfgs(tier):
         for unit in (2, 7 * 86400 * 10**6):
             out.append(dict(consumers=[ch], window=2, dmax=dmax, gaps=(1, 2), beyond=1.5 if has_u(ch) else 0.5, max_depth=5, unit_us=unit))
         out.append(dict(consumers=[ch], window=2, dmax=dmax, gaps=(1, 2), beyond=1.5 if has_u(ch) else 0.5, max_depth=5, payload="masked"))
+    # requests that run ahead of the source by up to 1.5 h: a delay-to-pull adapter then asks its source for a previous request time the
+    # source has not reached yet, the pull is refused and repeated later - a refused request is not a "previous request"
+    for ch in [[t] for t in P_]:
+        out.append(dict(consumers=[ch], window=2, dmax=ch[0][2], gaps=(1, 2), beyond=1.5, max_depth=(5 if ch[0][1] == 1 else 4) + (0 if q else 1)))
     # a direct consumer next to a delayed one (the delayed one keeps the output's history alive)
     for ch in ([["F", 2.5]], [["P", 2, 0]], [["U"]]):
         out.append(dict(consumers=[ch, []], window=2.5, dmax=3, gaps=(1, 2), beyond=1.5 if has_u(ch) else 0.5, max_depth=6 if q else 8))
